@@ -161,7 +161,7 @@ def run(F, ck, tier):
     for f, t in vofields:
         E.check('R20.3', dict(id='cyclic.check:' + f, fn='recursion::cyclic_recursion::check_cyclic_proof_verifier_data', kind='guard',
                               src=['F:VerifierOnlyCircuitData.' + f, 'c:from_slice', 'F:ProofWithPublicInputs.public_inputs', 'p:verifier_data'],
-                              ctx={'uncond': True}, why='out-of-circuit comparison of embedded and actual %s' % f))
+                              ctx={'uncond': True, 'loop_over_own': ['F:VerifierOnlyCircuitData.' + f]}, why='out-of-circuit comparison of embedded and actual %s (whole value: not a loop over a range taken from elsewhere)' % f))
     # layout agreement: registration order digest -> cap; both from_slice parse cap from the tail and digest before it
     reg = F.one('CircuitBuilder::add_verifier_data_public_inputs', crate='plonky2')
     if reg is not None:
